@@ -11,32 +11,66 @@
 (*             after the call)                                             *)
 (*   kernelgv  t  : cImageD11.compute_gv called with translation t          *)
 (*   assign    label, reset (labels all -1 and errors all initial before),  *)
-(*             tol                                                         *)
+(*             tol ; and for the NT tracked peaks of the run (every peak    *)
+(*             inside the tolerance of two grains, capped, plus a sample of *)
+(*             uncontested peaks and strays):                               *)
+(*             rk[k]  rank of THIS grain's error on peak k among the errors *)
+(*                    of all grains of the pass that are inside the         *)
+(*                    tolerance (0 = smallest), 99 = outside, -1 = the peak *)
+(*                    is not judged in this pass (binary64 cannot tell the  *)
+(*                    order apart).  Errors come from the harness's own     *)
+(*                    forward model applied to the ubi / translation the    *)
+(*                    call was made with, never from the kernel.            *)
+(*             lab[k] label held by the peak AFTER the real call (0 = none, *)
+(*                    else position of the grain in the ubi file)           *)
+(*             dr[k]  rank of the error stored for the peak after the call  *)
+(*                    (99 = still the initial value, -2 = matches no grain) *)
+(*   usertol   tol : the driving script set o.tolerance                      *)
 (*   computegv g, pt (translation in the parameter object), tol, upd        *)
 (*   gof       g, pt                                                       *)
 (*   refine    gts[] : translations of all grains at a refine() call made   *)
 (*             outside gof                                                 *)
 (*   rpbegin / rpend  tol                                                   *)
 (* The rules are the invariants of RefineFlow.tla evaluated on the real     *)
-(* call sequence (see the why strings), plus the outcome clause:           *)
-(* logged errors within their bounds, every simulated peak carries the      *)
-(* generating grain's label and integer hkl.                                *)
+(* call sequence (see the why strings); the ASSIGNMENT action of           *)
+(* RefineFlow.tla (the competing-owner rule of score_and_assign, as         *)
+(* ScoreAssign.tla states it for C07) replayed call by call on the tracked  *)
+(* peaks: after each real call the labels and stored errors must be the     *)
+(* ones the rule gives; at the end of each pass every tracked peak is owned *)
+(* by the grain with the strictly smallest error inside the tolerance (by   *)
+(* nobody if there is none), a simulated peak by the grain that produced it *)
+(* (gen[k], 0 = stray), and - for a run whose ubi file lists the same grains *)
+(* in another order (ident = position -> grain, peer[pass][k] = owner in the *)
+(* other run) - by the same grain as in the other run.  Then the outcome    *)
+(* clause: logged errors within their bounds, every simulated peak carries  *)
+(* the generating grain's label and integer hkl in the saved files, the     *)
+(* saved label column / per-grain counts / unindexed file agree with the    *)
+(* last assignment, and the same rule holds for the untracked peaks         *)
+(* (judged by the harness with the same definitions, reported as py_bad).   *)
 (***************************************************************************)
 EXTENDS Integers, Sequences, FiniteSets, TLC, Json, IOUtils
 
 Trace == ndJsonDeserialize(IOEnv.TRACE_FILE)
 
-VARIABLES t, e, gt, pt, cur, sim, inrp, presented, why
-vars == <<t, e, gt, pt, cur, sim, inrp, presented, why>>
+VARIABLES t, e, gt, pt, cur, sim, inrp, presented, why,
+          utol,      \* tolerance the user has set (changes with usertol events)
+          own, drl,  \* tracked peak -> label / rank of the stored error, as the assignment rule gives them
+          tab,       \* label -> rk of the calls of the running pass
+          npass      \* completed assignment passes
+vars == <<t, e, gt, pt, cur, sim, inrp, presented, why, utol, own, drl, tab, npass>>
+EOUT == 99
 
 Rec == Trace[t]
 Ev == Rec.ev[e + 1]
 Start(r) == /\ gt' = r.gt0 /\ pt' = r.pt0 /\ cur' = 0 /\ sim' = 0 /\ inrp' = FALSE /\ presented' = {}
+            /\ utol' = r.utol /\ own' = <<>> /\ drl' = <<>> /\ tab' = <<>> /\ npass' = 0
 
 Init == /\ t = 1 /\ e = 0 /\ why = "ok"
         /\ gt = IF Len(Trace) > 0 THEN Trace[1].gt0 ELSE <<>>
         /\ pt = IF Len(Trace) > 0 THEN Trace[1].pt0 ELSE 0
         /\ cur = 0 /\ sim = 0 /\ inrp = FALSE /\ presented = {}
+        /\ utol = IF Len(Trace) > 0 THEN Trace[1].utol ELSE 0
+        /\ own = <<>> /\ drl = <<>> /\ tab = <<>> /\ npass = 0
 
 Live == t <= Len(Trace) /\ e < Len(Rec.ev) /\ why = "ok"
 Consume == e' = e + 1 /\ t' = t
@@ -45,34 +79,75 @@ SetTrans == /\ Live /\ Ev.k = "settrans"
             /\ why' = IF Ev.gt # gt[Ev.g] THEN "a grain's translation changed outside its own position refinement"
                       ELSE IF Ev.pt # Ev.gt THEN "set_translation did not put the grain's translation into the parameter object" ELSE "ok"
             /\ pt' = Ev.pt /\ cur' = Ev.g
-            /\ UNCHANGED <<gt, sim, inrp, presented>> /\ Consume
+            /\ UNCHANGED <<gt, sim, inrp, presented, utol, own, drl, tab, npass>> /\ Consume
 
 KernelGv == /\ Live /\ Ev.k = "kernelgv"
             /\ why' = IF cur = 0 THEN "compute_gv before any set_translation"
                       ELSE IF Ev.t # gt[cur] THEN "g-vectors for assignment computed with a translation that is not the grain's own" ELSE "ok"
-            /\ UNCHANGED <<gt, pt, cur, sim, inrp, presented>> /\ Consume
+            /\ UNCHANGED <<gt, pt, cur, sim, inrp, presented, utol, own, drl, tab, npass>> /\ Consume
 
+\* ---- the assignment action (RefineFlow!AssignScore / ScoreAssign!Chunk) on the tracked peaks -------------------
+\* score_and_assign(ubi of grain `label`): if (err < tol^2 && err < drlv2[k]) take ; else if (labels[k] == label) release
+Tracked == 1..Rec.NT
+Own0 == IF presented = {} THEN [k \in Tracked |-> 0] ELSE own         \* a pass starts from reset labels / errors
+Drl0 == IF presented = {} THEN [k \in Tracked |-> EOUT] ELSE drl
+Take(k) == Ev.rk[k] < EOUT /\ Ev.rk[k] < Drl0[k]
+Judged(k) == Ev.rk[k] >= 0
+OwnAfter == [k \in Tracked |-> IF ~Judged(k) THEN Ev.lab[k]
+                                ELSE IF Take(k) THEN Ev.label
+                                ELSE IF Own0[k] = Ev.label THEN 0 ELSE Own0[k]]
+DrlAfter == [k \in Tracked |-> IF ~Judged(k) THEN Ev.dr[k] ELSE IF Take(k) THEN Ev.rk[k] ELSE Drl0[k]]
+TabAfter == IF presented = {} THEN [g \in 1..Rec.NG |-> IF g = Ev.label THEN Ev.rk ELSE <<>>]
+            ELSE [tab EXCEPT ![Ev.label] = Ev.rk]
+PassEnds == presented \cup {Ev.label} = 1..Rec.NG
+\* the independent statement: the owner is the grain whose error is the strictly smallest inside the tolerance
+Best(k) == LET c == {g \in 1..Rec.NG : TabAfter[g][k] = 0} IN IF c = {} THEN 0 ELSE CHOOSE g \in c : TRUE
+Identity(l) == IF l = 0 THEN 0 ELSE Rec.ident[l]
+AssignWhy ==
+   IF presented = {} /\ ~Ev.reset THEN "first score_and_assign of a pass without reset labels / errors"
+   ELSE IF Ev.label # cur THEN "score_and_assign label is not the grain whose g-vectors were just computed"
+   ELSE IF Ev.label \in presented THEN "a grain was presented twice in one assignment pass"
+   ELSE IF Ev.tol # utol THEN "assignment did not use the user's tolerance"
+   ELSE IF \E k \in Tracked : Judged(k) /\ Ev.lab[k] # OwnAfter[k] /\ Ev.lab[k] = Ev.label
+        THEN "score_and_assign gave a peak to a grain that does not fit it better than its owner (or not within the tolerance)"
+   ELSE IF \E k \in Tracked : Judged(k) /\ Ev.lab[k] # OwnAfter[k]
+        THEN "score_and_assign did not give a peak to the grain that fits it better than its owner"
+   ELSE IF \E k \in Tracked : Judged(k) /\ Ev.dr[k] # DrlAfter[k]
+        THEN "the error stored for a peak is not the error of its owner"
+   ELSE IF ~PassEnds THEN "ok"
+   ELSE IF \E k \in Tracked : Judged(k) /\ OwnAfter[k] # Best(k)
+        THEN "a peak is not owned by the grain with the strictly smallest error inside the tolerance"
+   ELSE IF \E k \in Tracked : Judged(k) /\ Rec.gen[k] # 0 /\ OwnAfter[k] # Rec.gen[k]
+        THEN "a simulated peak is not assigned to the grain that produced it"
+   ELSE IF \E k \in Tracked : Judged(k) /\ Rec.gen[k] = 0 /\ OwnAfter[k] # 0
+        THEN "a stray peak that no grain indexes was assigned to a grain"
+   ELSE IF Len(Rec.peer) > npass /\ \E k \in Tracked : Judged(k) /\ Rec.peer[npass + 1][k] >= 0
+                                                        /\ Identity(OwnAfter[k]) # Rec.peer[npass + 1][k]
+        THEN "the assignment of a peak changed when the grains were listed in another order in the ubi file"
+   ELSE "ok"
 Assign == /\ Live /\ Ev.k = "assign"
-          /\ why' = IF presented = {} /\ ~Ev.reset THEN "first score_and_assign of a pass without reset labels / errors"
-                    ELSE IF Ev.label # cur THEN "score_and_assign label is not the grain whose g-vectors were just computed"
-                    ELSE IF Ev.label \in presented THEN "a grain was presented twice in one assignment pass"
-                    ELSE IF Ev.tol # Rec.utol THEN "assignment did not use the user's tolerance" ELSE "ok"
-          /\ presented' = IF presented \cup {Ev.label} = 1..Rec.NG THEN {} ELSE presented \cup {Ev.label}
-          /\ UNCHANGED <<gt, pt, cur, sim, inrp>> /\ Consume
+          /\ why' = AssignWhy
+          /\ presented' = IF PassEnds THEN {} ELSE presented \cup {Ev.label}
+          /\ own' = OwnAfter /\ drl' = DrlAfter /\ tab' = TabAfter
+          /\ npass' = IF PassEnds THEN npass + 1 ELSE npass
+          /\ UNCHANGED <<gt, pt, cur, sim, inrp, utol>> /\ Consume
+
+UserTol == /\ Live /\ Ev.k = "usertol" /\ why' = "ok" /\ utol' = Ev.tol
+           /\ UNCHANGED <<gt, pt, cur, sim, inrp, presented, own, drl, tab, npass>> /\ Consume
 
 ComputeGv == /\ Live /\ Ev.k = "computegv"
              /\ why' = IF sim # 0 /\ Ev.g = sim THEN "ok"                      \* simplex trial: any translation
                        ELSE IF Ev.pt # gt[Ev.g] THEN "compute_gv for a grain with a translation that is not its own"
                        ELSE IF inrp /\ Ev.tol # 0 THEN "inside refinepositions the tolerance is not 1.0"
-                       ELSE IF ~inrp /\ Ev.tol # Rec.utol THEN "tolerance not restored after refinepositions" ELSE "ok"
-             /\ UNCHANGED <<gt, pt, cur, sim, inrp, presented>> /\ Consume
+                       ELSE IF ~inrp /\ Ev.tol # utol THEN "tolerance not restored after refinepositions" ELSE "ok"
+             /\ UNCHANGED <<gt, pt, cur, sim, inrp, presented, utol, own, drl, tab, npass>> /\ Consume
 
 Gof == /\ Live /\ Ev.k = "gof"
        /\ why' = IF ~inrp THEN "ok"
                  ELSE IF sim # 0 /\ Ev.g # sim THEN "simplex evaluated another grain than the one being refined"
                  ELSE IF sim = 0 /\ Ev.g # cur THEN "position refinement started without set_translation for that grain" ELSE "ok"
        /\ sim' = Ev.g /\ pt' = Ev.pt
-       /\ UNCHANGED <<gt, cur, inrp, presented>> /\ Consume
+       /\ UNCHANGED <<gt, cur, inrp, presented, utol, own, drl, tab, npass>> /\ Consume
 
 \* refine() outside gof: translations may have been stored just before (only for the grain under refinement)
 Refine == /\ Live /\ Ev.k = "refine"
@@ -80,21 +155,25 @@ Refine == /\ Live /\ Ev.k = "refine"
                     THEN "the translation of a grain that is not being refined changed"
                     ELSE IF sim # 0 /\ Ev.gts[sim] # pt THEN "stored translation is not the one in the parameter object" ELSE "ok"
           /\ gt' = Ev.gts /\ sim' = 0
-          /\ UNCHANGED <<pt, cur, inrp, presented>> /\ Consume
+          /\ UNCHANGED <<pt, cur, inrp, presented, utol, own, drl, tab, npass>> /\ Consume
 
 RpBegin == /\ Live /\ Ev.k = "rpbegin" /\ why' = "ok" /\ inrp' = TRUE
-           /\ UNCHANGED <<gt, pt, cur, sim, presented>> /\ Consume
+           /\ UNCHANGED <<gt, pt, cur, sim, presented, utol, own, drl, tab, npass>> /\ Consume
 RpEnd == /\ Live /\ Ev.k = "rpend"
-         /\ why' = IF Ev.tol # Rec.utol THEN "refinepositions did not restore the tolerance" ELSE "ok"
+         /\ why' = IF Ev.tol # utol THEN "refinepositions did not restore the tolerance" ELSE "ok"
          /\ inrp' = FALSE /\ sim' = 0
-         /\ UNCHANGED <<gt, pt, cur, presented>> /\ Consume
+         /\ UNCHANGED <<gt, pt, cur, presented, utol, own, drl, tab, npass>> /\ Consume
 
 FinalWhy(r) ==
   IF \E g \in 1..r.NG : r.dubi[g] > r.bubi[g] THEN "refined UBI further from the generating UBI than the bound"
   ELSE IF \E g \in 1..r.NG : r.dt[g] > r.bt THEN "refined translation further from the generating position than the bound"
+  ELSE IF r.py_bad > 0 THEN "a peak outside the tracked sample is not owned by the grain with the strictly smallest error inside the tolerance (or not by the grain that produced it, or changed owner with the grain order)"
   ELSE IF ~r.labels_ok THEN "a simulated peak does not carry the label of the grain that produced it"
   ELSE IF ~r.hkl_ok THEN "a saved peak does not carry the integer hkl it was simulated from"
   ELSE IF ~r.files_ok THEN "saved grain file does not carry the refined values"
+  ELSE IF ~r.saved_ok THEN "the saved label column is not the result of the last assignment before saving"
+  ELSE IF ~r.npks_ok THEN "a saved grain's peak count / peak list is not the set of peaks it produced"
+  ELSE IF ~r.unindexed_ok THEN "the file of unindexed peaks is not the set of peaks no grain owns"
   ELSE "ok"
 
 Finish == /\ t <= Len(Trace) /\ (e = Len(Rec.ev) \/ why # "ok")
@@ -102,8 +181,9 @@ Finish == /\ t <= Len(Trace) /\ (e = Len(Rec.ev) \/ why # "ok")
              IN PrintT("@@" \o ToJson([id |-> Rec.id, ok |-> (w = "ok"), why |-> w, consumed |-> e]))
           /\ t' = t + 1 /\ e' = 0 /\ why' = "ok"
           /\ IF t + 1 <= Len(Trace) THEN Start(Trace[t + 1])
-             ELSE gt' = <<>> /\ pt' = 0 /\ cur' = 0 /\ sim' = 0 /\ inrp' = FALSE /\ presented' = {}
+             ELSE /\ gt' = <<>> /\ pt' = 0 /\ cur' = 0 /\ sim' = 0 /\ inrp' = FALSE /\ presented' = {}
+                  /\ utol' = 0 /\ own' = <<>> /\ drl' = <<>> /\ tab' = <<>> /\ npass' = 0
 
-Next == SetTrans \/ KernelGv \/ Assign \/ ComputeGv \/ Gof \/ Refine \/ RpBegin \/ RpEnd \/ Finish
+Next == SetTrans \/ KernelGv \/ Assign \/ UserTol \/ ComputeGv \/ Gof \/ Refine \/ RpBegin \/ RpEnd \/ Finish
 Spec == Init /\ [][Next]_vars
 =============================================================================
